@@ -25,6 +25,7 @@ trans.forward(sim) of the same transform object.
 import itertools, math
 from fractions import Fraction
 import numpy as np
+from mc.explore import recycle
 
 ID = "C04"
 # computational entry points whose results are watched by the engine's retained-result oracle (mc/explore.py)
@@ -352,7 +353,7 @@ def check_det(ctx, M, spec, T, io, is_, ex_too, only=None, tag="formula", exp_ov
         base = None
         for ex in ((False, True) if ex_too else (False,)):
             try:
-                v = float(fn(io.x.copy(), is_.x.copy(), T, excludenull=ex, **kw))
+                v = float(fn(recycle("o", io.x), recycle("s", is_.x), T, excludenull=ex, **kw))
             except Exception as e:
                 if deg:
                     ctx.case(False, outcome="raise")
@@ -429,7 +430,7 @@ def check_meansim(ctx, M, spec, T, io):
     check_det(ctx, M, spec, T, io, is_, False, only=("nse",), tag="mean-sim-formula", casex={"kind": "meansim"})
     case = {"kind": "meansim", "trans": spec, "obs": encl(io.vals), "sim": encl(sim)}
     try:
-        v = float(M.nse(io.x.copy(), is_.x.copy(), T))
+        v = float(M.nse(recycle("o", io.x), recycle("s", is_.x), T))
     except Exception as e:
         ctx.case(True, outcome="raise")
         ctx.violation("nse:mean-sim:raised:%s" % tn, case, "raised %r" % (e,))
@@ -523,7 +524,7 @@ def check_corr(ctx, M, spec, T, io, ens, variants=CORR_VARIANTS, excludenull=Fal
     for ctype, stat in variants:
         score = "corr:%s:%s" % (ctype, stat) + (":missing-members" if hasnan else "")
         try:
-            v = float(M.corr(io.x.copy(), arg.copy(), T, excludenull=excludenull, stat=stat, type=ctype))
+            v = float(M.corr(recycle("o", io.x), recycle("s", arg), T, excludenull=excludenull, stat=stat, type=ctype))
         except Exception as e:
             if deg:
                 ctx.case(False, outcome="raise")
@@ -623,12 +624,12 @@ def check_null(ctx, M, spec, T, obs, sim, spearman):
         exp = expected_scores(fo, fs)
         exp["corr:Pearson"] = exp["pearson"]
         exp["corr:Spearman"] = pearson(avg_ranks(fo), avg_ranks(fs))
-    calls = [("bias:standard", lambda: M.bias(xo.copy(), xs.copy(), T, excludenull=True, type="standard")),
-             ("nse", lambda: M.nse(xo.copy(), xs.copy(), T, excludenull=True)),
-             ("kge", lambda: M.kge(xo.copy(), xs.copy(), T, excludenull=True)),
-             ("corr:Pearson", lambda: M.corr(xo.copy(), xs.copy(), T, excludenull=True, stat="mean", type="Pearson"))]
+    calls = [("bias:standard", lambda: M.bias(recycle("o", xo), recycle("s", xs), T, excludenull=True, type="standard")),
+             ("nse", lambda: M.nse(recycle("o", xo), recycle("s", xs), T, excludenull=True)),
+             ("kge", lambda: M.kge(recycle("o", xo), recycle("s", xs), T, excludenull=True)),
+             ("corr:Pearson", lambda: M.corr(recycle("o", xo), recycle("s", xs), T, excludenull=True, stat="mean", type="Pearson"))]
     if spearman:
-        calls.append(("corr:Spearman", lambda: M.corr(xo.copy(), xs.copy(), T, excludenull=True, stat="mean", type="Spearman")))
+        calls.append(("corr:Spearman", lambda: M.corr(recycle("o", xo), recycle("s", xs), T, excludenull=True, stat="mean", type="Spearman")))
     for score, f in calls:
         try:
             v = float(f())
@@ -680,9 +681,9 @@ def check_cm(ctx, M, obs, sim, ncat):
         mode = "exact" if ncat == kmin else "larger"
     try:
         if ncat is None:
-            cm = M.confusion_matrix(np.array(obs), np.array(sim))
+            cm = M.confusion_matrix(recycle("co", np.array(obs)), recycle("cs", np.array(sim)))
         else:
-            cm = M.confusion_matrix(np.array(obs), np.array(sim), ncat=ncat)
+            cm = M.confusion_matrix(recycle("co", np.array(obs)), recycle("cs", np.array(sim)), ncat=ncat)
         arr = np.array(cm, dtype=np.float64)
     except Exception as e:
         if not judged:
